@@ -672,8 +672,8 @@ impl Check for RoutingCheck {
 
     fn budget(_id: &str, tier: Tier) -> Budget {
         match tier {
-            Tier::Quick => Budget { cases: 6000, max_bytes: 64 },
-            Tier::Thorough => Budget { cases: 100_000, max_bytes: 64 },
+            Tier::Quick => Budget { cases: 20_000, max_bytes: 64 },
+            Tier::Thorough => Budget { cases: 300_000, max_bytes: 64 },
         }
     }
 
